@@ -62,6 +62,7 @@ def gen_call(rng):
     if k < 0.86:
         return dict(kind="controller", updates=[{"x": rng.randint(0, 7)}, {"app_id": rng.randint(1, 255)}][:rng.randint(0, 2)],
                     x=rng.randint(0, 7), y=rng.randint(0, 7), p=rng.randint(1, 17), **{"raise": rng.random() < 0.5},
+                    edit_structs=rng.choice([0, 0, 1, 2, 5]),
                     bmp={"board": rng.randint(1, 23), "frame": rng.randint(0, 3)})
     if k < 0.96:
         return dict(kind="boot", preset=rng.choice([None, None, "spin3_boot_options", "spin5_boot_options"]),
@@ -224,9 +225,21 @@ def gen_family(rng):
     """A history of RELATED calls: a base call and copies of it that differ in one component each, in random
     order, the base once more at the end."""
     k = rng.random()
-    if k < 0.25:
+    if k < 0.12:
+        # machine-control objects one after another: boots with presets / options / overrides in every order, and
+        # controllers whose owner edits their public struct definitions
+        opts = [dict(preset=pz, options=o, overrides=ov)
+                for pz in (None, "spin3_boot_options", "spin5_boot_options") for o in ({}, {"hw_ver": 2}, {"led0": 0x1234})
+                for ov in (None, {"hw_ver": 4}, {})]
+        fam = [dict(kind="boot", what="boot-family", **rng.choice(opts)) for _ in range(rng.randint(3, 5))]
+        fam.insert(rng.randrange(len(fam) + 1),
+                   dict(kind="controller", updates=[], x=1, y=1, p=1, bmp={"board": 1, "frame": 0}, edit_structs=rng.choice([1, 2, 5]),
+                        **{"raise": False}))
+        fam.append(dict(kind="controller", updates=[], x=2, y=0, p=3, bmp={"board": 2, "frame": 1}, edit_structs=0, **{"raise": False}))
+        return fam
+    if k < 0.3:
         base = gen_table_call(rng)
-    elif k < 0.45:
+    elif k < 0.47:
         base = gen_wrapper_call(rng)
     else:
         prob = pnr_gen.gen_problem(rng, max_w=6, max_h=6, max_vertices=9)
